@@ -100,10 +100,14 @@ CLAIMED = {
    text="100k (quick) parsed programs per profile from four generators; linting must not panic, must leave the program's Debug text unchanged, must return the stable by-line merge of the per-pass reports, and the repeated-identifier reports must equal an independent recomputation over the tree in traversal order (with line and text).",
    note="traversal order as fixed by C16; consecutive mentions never differ only in case (the statement does not say how case is compared)",
    ref="5/C19"),
+ "C20": dict(
+   technique="property-based testing: differential between the real rrss binary run as a subprocess and the library called in-process on generated program files and inputs; refused usages enumerated",
+   text="8k (quick) generated program files x standard inputs per profile (succeeding, failing at parse time on various lines, failing at run time after 0..n lines of output, reading input incl. invalid UTF-8, with many lint reports) are run through the real binary as `exec` (separate streams, and both streams on one file to observe ordering), `lint` and `parse`; stdout/stderr bytes must equal the library's output, the prefixed library error, the library's diagnostics and the library's tree. A fixed and a generated list of refused usages (missing file, directory, no/extra argument, unknown flag/subcommand, invalid UTF-8 path) must exit non-zero.",
+   note="NO_COLOR=1 (colour is not part of the property); exit status of program errors is unspecified and only recorded; streams are files, not pipes; programs beyond 3000 library steps skipped and counted",
+   ref="5/C20"),
 }
 
 NA_REASON = {
- "C20": "check under construction: subprocess differential CLI vs library (DESIGN 5/C20); not yet claimed",
 }
 
 ALL = [json.loads(l)["id"] for l in open("/verif/properties.jsonl")]
@@ -137,7 +141,7 @@ def main():
         },
         "engines": [
             {"name": "vcheck", "path": "/verif/engine", "serves_properties": sorted(CLAIMED),
-             "kind_free_text": "Rust workspace: engine-core (mini-AST, tape-driven grammar generators, renderer, reference model) + vcheck (property runners over rrss, proptest generation/shrinking, 16 shards, dev+release profiles)"},
+             "kind_free_text": "Rust workspace (C20 additionally builds the real rrss binary from /repo into /verif/target/cli and runs it as a subprocess): engine-core (mini-AST, tape-driven grammar generators, renderer, reference model) + vcheck (property runners over rrss, proptest generation/shrinking, 16 shards, dev+release profiles)"},
         ],
         "checks": checks,
         "notes": "All checks: exit 0 held / 1 VIOLATION line with replay / 2 inconclusive. VERIF_SEED and VERIF_TIER honoured. known findings: /verif/known_findings.json",
